@@ -198,10 +198,39 @@ def ax_dollar_template(tier):
             j += 1
             if not c:
                 continue
-            want = (c[0][1] or '') + o + (c[0][2] or '')
+            # the unmatched prefix (text before the leftmost match) is kept by Regex::replace: it belongs to the "head" of the contract
+            g0 = c[0][0] or ''
+            want = t[:len(t) - len(g0)] + (c[0][1] or '') + o + (c[0][2] or '')
             if new != want:
                 return {'string': t, 'detail': 'template replacement of %r with output %r gives %r, not head+output+tail %r' % (t, o, new, want)}, k * (1 + len(outs))
     return None, k * (1 + len(outs))
+
+
+def ax_env_ref(tier):
+    """the two reference patterns of expand_one_env: group 3 is a proper suffix of the text and head + reference + tail is the text (U-EXP2 captures shim)"""
+    lits = [l for l in fn_literals('src/shell.rs', 'expand_one_env') if '(.*?)' in l and '\\$' in l]
+    if len(lits) != 2:
+        raise LostAnchor('axcheck env_ref: the two reference patterns of expand_one_env were not found (%d)' % len(lits))
+    n = 5 if tier == 'quick' else 6
+    ts = list(strings(['a', '$', '{', '}', '?'], n))
+    total = 0
+    for k_, ptn in enumerate(lits):
+        s = Session(); s.set(ptn)
+        for t in ts:
+            s.caps(t)
+        out = s.run()[1:]
+        total += len(ts)
+        for t, l in zip(ts, out):
+            c = parse_caps(l)
+            if not c:
+                continue
+            g0, g1, g2, g3 = (c[0] + [None] * 4)[:4]
+            if g3 is None or len(g3) >= len(t):
+                return {'string': t, 'detail': 'pattern %d: group 3 %r is not a proper suffix of %r' % (k_ + 1, g3, t)}, total
+            ref = ('$' + g2) if k_ == 0 else ('${' + g2 + '}')
+            if t[:len(t) - len(g0)] + g1 + ref + g3 != t:
+                return {'string': t, 'detail': 'pattern %d: head %r + reference %r + tail %r is not the text %r' % (k_ + 1, g1, ref, g3, t)}, total
+    return None, total
 
 
 def ax_dot(tier):
@@ -226,8 +255,9 @@ def ax_dot(tier):
 AXIOMS = {
     'C01': [('re_gt', ax_re_gt)], 'C13': [('re_gt', ax_re_gt)], 'C04': [('re_gt', ax_re_gt)],
     'C15': [('args_ref', ax_args_ref)],
+    'C10': [('env_ref', ax_env_ref)],
     'C11': [('dollar_splice', ax_dollar_splice), ('dollar_template', ax_dollar_template), ('dot', ax_dot)],
-    'C05': [('dollar_splice', ax_dollar_splice), ('dot', ax_dot), ('args_ref', ax_args_ref)],
+    'C05': [('dollar_splice', ax_dollar_splice), ('dot', ax_dot), ('args_ref', ax_args_ref), ('env_ref', ax_env_ref)],
 }
 
 
